@@ -621,6 +621,11 @@ func NewRaft(conf *Config, fsm FSM, logs LogStore, stable StableStore, snaps Sna
 			return nil, err
 		}
 	}
+	// A configuration at or below the commit index recovered by
+	// restoreFromCommittedLogs is committed.
+	if r.configurations.latestIndex <= r.getCommitIndex() {
+		r.setCommittedConfiguration(r.configurations.latest, r.configurations.latestIndex)
+	}
 	r.logger.Info("initial configuration",
 		"index", r.configurations.latestIndex,
 		"servers", hclog.Fmt("%+v", r.configurations.latest.Servers))
